@@ -243,6 +243,7 @@ func (s *clientSocket) Connect() {
 	managerConnState := s.manager.state
 	s.manager.stateMu.RUnlock()
 	if managerConnState != clientConnStateReconnecting {
+		s.manager.allowConnection()
 		go s.manager.open()
 	}
 
